@@ -58,6 +58,14 @@ def run(F, R):
     h2_constants(F, R)
     h4_gated(F, R, M)
     h5_net(F, R)
+    # H7: the event-index mechanism inside the queue is used only when negotiated: used_event is re-armed, and avail.flags bypassed,
+    # only under the queue's event-idx flag (C05.N2)
+    from . import C05 as _c5q
+    _rq = _c5q.classify_api(_c5q.queue_api(F, M))
+    _byq = {}
+    for _k, _v in _rq.items():
+        _byq.setdefault(_v, []).append(_k)
+    guard(R, 'H7', 'event-idx-gating', lambda: _c5q.n2_direction(F, RuleProxy(R, {'N2': 'H7'}), M, _byq))
     # H1 (transport side): the accepted feature set reaches the device in full and the offered set is read in full -
     # both 32-bit halves, selector first - on the real MMIO (legacy and modern) and PCI transports (register traces
     # shared with C10.M2 / C11.W3)
